@@ -813,7 +813,7 @@ func runC10Seq(r *vh.Rng, maxLen int) seqResult {
 		case c < 39:
 			v := r.Intn(len(c10ShipIDs))
 			w.shipid[k] = v
-			simple(fmt.Sprintf("LSetShipID %d %d", k, v), func() { w.h.ServiceForSKI(w.skis[k]).SetShipID(c10ShipIDs[v]) })
+			simple(fmt.Sprintf("LSetShipID %d %d", k, v), func() { w.h.ServiceForSKI(w.spelling(r, k)).SetShipID(c10ShipIDs[v]) })
 		case c < 58:
 			var ks []int
 			for j := 0; j < c10NSki; j++ {
